@@ -249,3 +249,177 @@ def native_C04(tier, seed):
         bad("C04-affine-refit", "affine_deriv", f"after a second fit the log-Jacobian {float(lj[0])} is not that of the current map ({nd})", {"class": "AffineTransform", "sequence": "fit, fit"})
     return {"what": "real transform classes: round trips down to a 1e-3 margin, inverse/forward log-Jacobian negation, numeric derivative vs reported log-Jacobian, wrap range and congruence, fit == forward, all 16 composite configurations; numpy/torch/jax x float32/float64; bounds over 9 orders of magnitude",
             "bound": f"{cases} configurations", "cases": cases, "failures": fails}
+
+
+# ------------------------------------------------------------------------------------------ C09 / C16
+class RecRng:
+    """generator wrapper recording what resample hands to choice()"""
+
+    def __init__(self, seed):
+        self.g = np.random.default_rng(seed)
+        self.calls = []
+
+    def choice(self, a, size=None, replace=True, p=None):
+        idx = self.g.choice(a, size=size, replace=replace, p=p)
+        self.calls.append({"a": a, "size": size, "replace": replace, "p": np.asarray(p, dtype=float), "idx": idx})
+        return idx
+
+
+def native_C09(tier, seed):
+    import mpmath
+    from aspire.samples import SMCSamples
+    rng = np.random.default_rng(seed)
+    fails, cases = [], 0
+    reps = 12 if tier == "quick" else 120
+    for nsname, xp, dts in namespaces():
+        for dtn, dt in dts.items():
+            for r in range(reps):
+                n = int(rng.integers(2, 60))
+                m = [None, int(rng.integers(1, 2 * n)), n + 7, max(1, n // 2)][r % 4]
+                ll = rng.normal(size=n) * float(10 ** rng.uniform(-1, 3)) - (3e7 if (r % 5 == 0 and dtn == "float64") else 0.0)
+                lp, lq = rng.normal(size=n), rng.normal(size=n)
+                X = rng.normal(size=(n, 2))
+                b0 = float(rng.choice([0.0, rng.uniform(0, 0.9)]))
+                b1 = float(rng.uniform(b0 + 1e-3, 1.0))
+                s = SMCSamples(X, log_likelihood=ll, log_prior=lp, log_q=lq, beta=b0, xp=xp, dtype=dt)
+                rec = RecRng(seed + r)
+                cases += 1
+                inp = {"namespace": nsname, "dtype": dtn, "n": n, "n_samples": m, "beta": [b0, b1], "seed": seed, "rep": r}
+                try:
+                    out = s.resample(b1, n_samples=m, rng=rec)
+                except Exception as e:  # noqa: BLE001
+                    fails.append({"id": f"C09-raise-{nsname}-{dtn}-{r}", "obligation": "C09", "what": f"{type(e).__name__}: {e}", "input": inp})
+                    continue
+                if len(rec.calls) != 1:
+                    fails.append({"id": f"C09-draws-{nsname}-{dtn}-{r}", "obligation": "exactly one draw", "what": f"{len(rec.calls)} calls of choice()", "input": inp})
+                    continue
+                c = rec.calls[0]
+                src = {k: np.asarray(getattr(s, k)) for k in ("x", "log_likelihood", "log_prior", "log_q")}
+                iw = (b1 - b0) * (src["log_likelihood"].astype(float) + src["log_prior"].astype(float) - src["log_q"].astype(float))
+                mx = iw.max()
+                w = np.array([float(mpmath.e ** mpmath.mpf(float(v - mx))) for v in iw])
+                w /= w.sum()
+                if not (c["replace"] is True or c["replace"] == True):  # noqa: E712
+                    fails.append({"id": f"C09-replace-{nsname}-{dtn}-{r}", "obligation": "drawn with replacement", "what": f"replace={c['replace']}", "input": inp})
+                if c["a"] != n or (c["size"] != (m if m is not None else n)):
+                    fails.append({"id": f"C09-size-{nsname}-{dtn}-{r}", "obligation": "requested size", "what": f"a={c['a']} size={c['size']}", "input": inp})
+                epsm = 1.2e-7 if dtn == "float32" else 2.3e-16
+                if np.abs(c["p"] - w).max() > 64 * epsm * (10 + 4 * float(np.abs(iw).max())):
+                    fails.append({"id": f"C09-p-{nsname}-{dtn}-{r}", "obligation": "selection probabilities", "what": f"max |p - SOFTMAX(IW)| = {np.abs(c['p'] - w).max():.3g}", "input": inp})
+                idx = c["idx"]
+                for k in src:
+                    got = np.asarray(getattr(out, k))
+                    if got.dtype != src[k].dtype or not np.array_equal(got, src[k][idx]):
+                        fails.append({"id": f"C09-rows-{k}-{nsname}-{dtn}-{r}", "obligation": f"{k} == take(self.{k}, IDX)", "what": f"{k}: not exact copies of the drawn source rows (dtype {got.dtype} vs {src[k].dtype})", "input": inp})
+                        break
+                if float(out.beta) != b1 or len(out.x) != (m if m is not None else n):
+                    fails.append({"id": f"C09-beta-size-{nsname}-{dtn}-{r}", "obligation": "result carries the new temperature", "what": f"beta {out.beta}, len {len(out.x)}", "input": inp})
+    return {"what": "real SMCSamples.resample with a recording generator: one choice() call, with replacement, p vs mpmath SOFTMAX(IW), every field an exact copy of the drawn source rows (same dtype), new temperature and requested size; numpy/torch/jax x float32/float64, down- and up-sampling",
+            "bound": f"{cases} populations", "cases": cases, "failures": fails}
+
+
+def _model_of(s):
+    d = {k: (None if getattr(s, k, None) is None else np.asarray(getattr(s, k))) for k in ("x", "log_likelihood", "log_prior", "log_q")}
+    for k in ("log_w", "weights"):
+        if hasattr(s, k):
+            d[k] = None if getattr(s, k) is None else np.asarray(getattr(s, k))
+    for k in ("log_evidence", "log_evidence_error", "beta"):
+        if hasattr(s, k):
+            v = getattr(s, k)
+            d[k] = None if v is None else float(v)
+    d["parameters"] = list(s.parameters)
+    d["xp"] = s.xp.__name__
+    d["dtype"] = str(s.dtype)
+    return d
+
+
+def _same(a, b, skip=()):
+    for k in a:
+        if k in skip:
+            continue
+        va, vb = a[k], b.get(k)
+        if va is None or vb is None:
+            if not (va is None and vb is None):
+                return k
+        elif isinstance(va, np.ndarray):
+            if va.shape != vb.shape or not np.array_equal(va, vb, equal_nan=True):
+                return k
+        elif isinstance(va, float):
+            if not (va == vb or (math.isnan(va) and math.isnan(vb))):
+                return k
+        elif va != vb:
+            return k
+    return None
+
+
+def native_C16(tier, seed):
+    import pickle
+    from aspire.samples import BaseSamples, Samples, SMCSamples
+    rng = np.random.default_rng(seed)
+    fails, cases = [], 0
+    reps = 6 if tier == "quick" else 40
+    for cls in (BaseSamples, Samples, SMCSamples):
+        for nsname, xp, dts in namespaces():
+            for dtn, dt in dts.items():
+                for present in ((), ("log_q",), ("log_likelihood", "log_prior"), ("log_likelihood", "log_prior", "log_q")):
+                    for r in range(reps):
+                        n = int(rng.integers(3, 30))
+                        kw = {k: rng.normal(size=n) for k in present}
+                        if cls is SMCSamples:
+                            kw["beta"] = 0.3
+                        if cls in (Samples, SMCSamples) and r % 2:
+                            kw["log_evidence"] = 1.5
+                            kw["log_evidence_error"] = 0.25
+                        s = cls(rng.normal(size=(n, 2)), xp=xp, dtype=dt, parameters=["a", "b"], **kw)
+                        ref = _model_of(s)
+                        inp = {"class": cls.__name__, "namespace": nsname, "dtype": dtn, "present": present, "n": n, "seed": seed, "rep": r}
+                        cases += 1
+                        try:
+                            # selections
+                            for kind in range(4):
+                                if kind == 0:
+                                    idx = slice(1, n - 1)
+                                    npidx = idx
+                                elif kind == 1:
+                                    npidx = rng.random(n) < 0.5
+                                    npidx[0] = True
+                                    idx = xp.asarray(npidx)
+                                elif kind == 2:
+                                    npidx = rng.integers(0, n, size=5)
+                                    idx = xp.asarray(npidx)
+                                else:
+                                    idx = npidx = slice(None, n // 2)
+                                sub = s[idx]
+                                got = _model_of(sub)
+                                for k in ("x", "log_likelihood", "log_prior", "log_q", "log_w", "weights"):
+                                    if k in ref:
+                                        want = None if ref[k] is None else ref[k][npidx]
+                                        g = got.get(k)
+                                        if (want is None) != (g is None) or (want is not None and not np.array_equal(want, g)):
+                                            fails.append({"id": f"C16-select-{cls.__name__}-{nsname}-{dtn}-{k}-{kind}-{r}", "obligation": f"{k} == take(self.{k}, idx)", "what": f"selection kind {kind}: field {k} is not the same selection", "input": inp})
+                                for k in ("log_evidence", "log_evidence_error", "beta", "parameters", "xp", "dtype"):
+                                    if k in ref and ref[k] != got.get(k) and not (cls is Samples and len(present) == 3 and k.startswith("log_evidence") and "log_evidence" not in kw):
+                                        if cls is Samples and len(present) == 3 and k.startswith("log_evidence"):
+                                            fails.append({"id": f"C16-evidence-{cls.__name__}-{nsname}-{dtn}-{kind}-{r}", "obligation": f"{k} carried", "what": f"{k} {ref[k]} -> {got.get(k)} after selection", "input": inp})
+                                        elif not k.startswith("log_evidence") or ref[k] is not None:
+                                            fails.append({"id": f"C16-carried-{cls.__name__}-{nsname}-{dtn}-{k}-{kind}-{r}", "obligation": f"{k} carried", "what": f"{k} {ref[k]} -> {got.get(k)} after selection", "input": inp})
+                            # partition + concatenate
+                            kcut = int(rng.integers(1, n - 1))
+                            joined = cls.concatenate([s[:kcut], s[kcut:]])
+                            bad = _same({k: ref[k] for k in ("x", "log_likelihood", "log_prior", "log_q", "parameters", "xp", "dtype")}, _model_of(joined))
+                            if bad:
+                                fails.append({"id": f"C16-concat-{cls.__name__}-{nsname}-{dtn}-{r}", "obligation": "concat(parts) restores the original", "what": f"field {bad} differs after concatenating a partition", "input": inp})
+                            # pickle, dict
+                            s2 = pickle.loads(pickle.dumps(s))
+                            bad = _same(ref, _model_of(s2))
+                            if bad:
+                                fails.append({"id": f"C16-pickle-{cls.__name__}-{nsname}-{dtn}-{r}", "obligation": "pickle round trip", "what": f"field {bad} differs after pickling", "input": inp})
+                            for flat in (True, False):
+                                s3 = cls.from_dict(s.to_dict(flat=flat))
+                                bad = _same(ref, _model_of(s3))
+                                if bad:
+                                    fails.append({"id": f"C16-dict-{cls.__name__}-{nsname}-{dtn}-{flat}-{r}", "obligation": "from_dict(to_dict(s))", "what": f"field {bad} differs after to_dict/from_dict (flat={flat})", "input": inp})
+                        except Exception as e:  # noqa: BLE001
+                            fails.append({"id": f"C16-raise-{cls.__name__}-{nsname}-{dtn}-{r}", "obligation": "C16", "what": f"{type(e).__name__}: {str(e)[:200]}", "input": inp})
+    return {"what": "select (slice, mask, index array) / partition+concatenate / pickle / to_dict-from_dict on real sample sets of every class x namespace x dtype x optional-field subset, against a plain-array reference model",
+            "bound": f"{cases} sample sets", "cases": cases, "failures": fails}
